@@ -387,4 +387,6 @@ theorem cal_letter (u : PerUnit) (hu : u = .M ∨ u = .Y) :
     (u.letter = 77 ∧ calUnit u = .MON) ∨ (u.letter = 89 ∧ calUnit u = .Y) := by
   rcases hu with c | c <;> subst c <;> simp [PerUnit.letter, calUnit]
 
+theorem intStr10 : Periods.intStr 10 = natStr 10 := by decide
+
 end RTV.Periods2
